@@ -39,6 +39,7 @@ func main() {
 	replay := flag.String("replay", "", "replay file: re-evaluate that obligation on the current tree")
 	list := flag.Bool("list", false, "print every obligation")
 	noEvidence := flag.Bool("no-evidence", false, "do not write evidence/replay files (used for seeded variants)")
+	rulesDump := flag.Bool("rules", false, "print the rules of each property (markdown) and exit")
 	selftest := flag.Bool("selftest", false, "run the sensitivity catalogue of the property and print the outcomes")
 	patch := flag.String("patch", "", "analyse a scratch copy of -dir with this diff applied (never writes evidence)")
 	flag.Parse()
@@ -93,6 +94,37 @@ func main() {
 		ids = []string{*prop}
 	}
 
+	if *rulesDump {
+		w, err := Load(LoadOpts{Dir: *dir})
+		if err != nil {
+			fmt.Fprintln(os.Stderr, err)
+			osExit(2)
+		}
+		for _, id := range ids {
+			p := registry[id]
+			c := NewCtx(id, w)
+			p.Run(c)
+			nOK, nKF := 0, 0
+			for _, o := range c.Obs {
+				if o.Status == Discharged {
+					nOK++
+				} else if o.Status == Violated {
+					nKF++
+				}
+			}
+			fmt.Printf("### %s\n\n", id)
+			for _, t := range c.RuleTexts() {
+				i := strings.Index(t, ": ")
+				fmt.Printf("* **%s** %s\n", t[:i], t[i+2:])
+			}
+			fmt.Printf("\nObligations on the current tree: %d (%d discharged, %d reported and recorded as known findings). Not decided: %s\n", len(c.Obs), nOK, nKF, p.NotDecided)
+			if len(p.Assumptions) > 0 {
+				fmt.Printf("Assumptions: %s\n", strings.Join(p.Assumptions, "; "))
+			}
+			fmt.Println()
+		}
+		osExit(0)
+	}
 	if *selftest {
 		bad := 0
 		for _, id := range ids {
